@@ -1172,7 +1172,7 @@ OP_WEIGHTS = [
     ('kill_node', 2), ('ep_register', 2), ('ep_exit', 1), ('handover', 3),
     ('restart_same_host', 2), ('ep_crash', 1), ('ep_reap', 1),
     ('rt_restart_same_host', 2), ('fence_old_host', 3),
-    ('call_level_race', 3), ('delete_reply_lost', 3),
+    ('call_level_race', 3), ('delete_reply_lost', 3), ('ping_pong', 3),
 ]
 
 
@@ -1543,6 +1543,44 @@ class Generator:
             {'op': 'delete', 'seq': old.seq},
             {'op': 'svc', 'host': old.host, 'n': 5, 'during': during}])
         return self._request(world, old.inst, host=new_host)
+
+    def g_ping_pong(self, world):
+        """The instance goes from host A to host B, back to A and to B again
+        without a service restart.  In the first hand-over A's clean-up runs
+        while B's handler is between two ZooKeeper calls (after it has read
+        the node as A's, before the watch it sets reads it again).  At the end
+        the world is left to quiesce: B's last request must be registered."""
+        olds = [c for c in world.conts.values()
+                if c.kind == 'svc' and c.present and world._valid(c) and
+                world.hosts[c.host].proc is not None and
+                not world._dir_pending(world.hosts[c.host].proc)]
+        if not olds:
+            return None
+        old = self.rng.choice(olds)
+        others = [n for n, h in sorted(world.hosts.items())
+                  if n != old.host and h.proc is not None and
+                  not world._dir_pending(h.proc)]
+        if not others:
+            return None
+        host_a, host_b = old.host, self.rng.choice(others)
+        at = 3 if self.rng.random() < 0.8 else self.rng.randint(2, 7)
+        svc_a = {'op': 'svc', 'host': host_a, 'n': 5}
+        svc_b = {'op': 'svc', 'host': host_b, 'n': 5}
+        wake_b = {'op': 'deliver', 'host': host_b, 'n': 9}
+        k1 = self._request(world, old.inst, host=host_b)
+        k2 = self._request(world, old.inst, host=host_a)
+        k3 = self._request(world, old.inst, host=host_b)
+        self.follow.extend([
+            k1,
+            dict(svc_b, during=[[at, [dict(svc_a)]]]),   # first hand-over
+            dict(svc_a), dict(wake_b), dict(svc_b),      # k1 registers on B
+            {'op': 'delete', 'seq': k1['seq']}, dict(svc_b),
+            k2, dict(svc_a),                             # back on A
+            k3, dict(svc_b),                             # B waits for A
+            {'op': 'delete', 'seq': k2['seq']}, dict(svc_a),
+            dict(wake_b), dict(svc_b),
+            {'op': 'settle'}])
+        return {'op': 'delete', 'seq': old.seq}
 
     def g_restart_same_host(self, world):
         """The instance restarts on the same host: the new container
